@@ -271,6 +271,12 @@ func registerZZ(P *Program) {
 		return nil
 	})
 	P.reg("zzverif.Native", func(it *Interp, a []Value) Value { return false })
+	P.reg("zzverif.IsLocalTime", func(it *Interp, a []Value) Value {
+		if t, ok := a[0].(TimeV); ok {
+			return t.Local
+		}
+		panic(unsupported("IsLocalTime of a non-time value"))
+	})
 	P.reg("zzverif.Note", func(it *Interp, a []Value) Value {
 		it.pathNotes = append(it.pathNotes, fmt.Sprint(a[0]))
 		return nil
